@@ -57,9 +57,10 @@ claim("C03",
       "over the rewriter loop of the driver model for any finder. C03_canonical_files: the same from the file's TEXT "
       "alone for every file of the canonical file language (composition with the parser specification theorem "
       "find_canonical of Proofs/FileSpec.v): the tokens stand at the offsets `expected` computes from the text. "
-      "C03_canonical_rewritten: in message style the bytes written ARE the UTF-8 encoding of the canonical file with the "
-      "same layout, names, arguments and other items whose statements without a reference now begin their message "
-      "with `[ref: N] ` (an equation between texts, via decode_is_encode and weave_items). "
+      "C03_canonical_rewritten: in either style the bytes written ARE the UTF-8 encoding of the canonical file with the "
+      "same layout, names, arguments and other items whose statements without a reference now carry one (`[ref: N] ` "
+      "at the start of the message; `ref = N` as first key-value) -- an equation between texts, via decode_is_encode "
+      "and weave_items. "
       "Tie: real binary vs extracted model on the "
       "repository's Rust corpus, generated statements and a malformed/mutated stream; the predicate (token deletion "
       "restores the original; tokens only at statements lacking a reference) is evaluated directly on the bytes.",
@@ -285,7 +286,11 @@ claim("C13",
       "any further characters other than `,` `;` and by string literals -- `u.name`, `x + 1` --) with any layout between all tokens, "
       "the finder returns exactly `expected`; C13_structured_statement spells it out (entry AT the value of the first "
       "`ref` key-value with a value, its trimmed text read as u32; else insertion after the target / the bracket with "
-      "`, ` / `; `); C13_message_style_statement; C13_ref_key; C13_pieces. Tie: "
+      "`, ` / `; `); C13_message_style_statement; C13_ref_key; C13_pieces. C13_canonical_rewritten + "
+      "C13_inserted_key_value: after an edit run the bytes of a readable canonical file ARE the UTF-8 encoding of the "
+      "canonical file in which every statement that lacked a reference has `ref = N` as its first key-value, directly "
+      "after the bracket or the target argument, `,` when key-values follow and `;` when not (an equation between "
+      "texts; the example is replayed on the binary). Tie: "
       "structured statements over the key-value grammar with the property-text oracle on finder, model and binary; "
       "unusable refs reported as such and left alone.",
       "The former finding F10b (a comment between the ref value and its delimiter made the reference unusable) is repaired "
